@@ -119,13 +119,13 @@ func (r *replica) record(tab map[string]*entry, key string, vals map[string]stri
 		return
 	}
 	r.rep.Count("relational_comparisons")
+	// compare what both replicas asked (traces over fewer accounts / keys ask fewer questions); remember the rest
 	var ks []string
-	for k := range vals {
-		ks = append(ks, k)
-	}
-	for k := range e.vals {
-		if _, ok := vals[k]; !ok {
+	for k, v := range vals {
+		if _, ok := e.vals[k]; ok {
 			ks = append(ks, k)
+		} else {
+			e.vals[k] = v
 		}
 	}
 	sort.Strings(ks)
